@@ -523,6 +523,7 @@ func init() {
 			sc := &Scn{Family: "C09.subjects"}
 			sc.Sub = subjectKinds[g.Intn(len(subjectKinds))]
 			sc.SetInt("buf", g.Range(1, 3))
+			sc.SetInt("cancelpub", g.Intn(2))
 			n := g.Range(3, 9)
 			v, subs, term := 0, 0, false
 			for i := 0; i < n; i++ {
@@ -974,7 +975,16 @@ func runC09Subjects(e *Env) {
 		case "next":
 			e.Go("c09.pub", func() {
 				e.Yield()
-				subj.NextWithContext(context.WithValue(pub, kC09Item, op.A), op.A)
+				ctx := context.WithValue(pub, kC09Item, op.A)
+				if sc.Int("cancelpub", 0) == 1 {
+					// a request-scoped context: over as soon as the publisher is done with the call; what a
+					// subject stores and replays later is still that context (its values stay readable)
+					c, cancel := context.WithCancel(ctx)
+					subj.NextWithContext(c, op.A)
+					cancel()
+					return
+				}
+				subj.NextWithContext(ctx, op.A)
 			})
 		case "error":
 			e.Go("c09.pub", func() {
